@@ -1,15 +1,431 @@
 /-
-  Property C16 — property theorems only (helper lemmas live next to the model).
+  Property C16 — ConcurrentExecutionQueue: items consumed once, one consumer at a time, none stranded;
+  refused launches recover.  Property theorems only; the model is `Babylon.ExecQ.Model`, the invariants
+  and their proofs are in `Babylon/ExecQ/Lemmas*.lean`.
+
+  The transition system is `Babylon.ExecQ.Step c` (`Reach c` = its reachable states): any number of
+  threads, each at any time idle or inside `execute` / `signal_push_event` / `join` /
+  `consume_until_empty`; one step = one atomic operation on `_events`, one step of the abstract queue
+  (take an index / publish it / batch-pop a published prefix / empty poll, see Q1-Q3 in the model), one
+  launch attempt whose outcome (refuse / accept inline / accept asynchronously) is an arbitrary fault
+  input, or one call of the consume function's stages.  Theorems over `Reach c` therefore hold for all
+  numbers of producers, all capacities `c.cap`, all interleavings — in particular of producers with the
+  consumer's exit decision (empty poll, size check, CAS) — and all accept/refuse sequences.
+  `ReachA c` restricts the executor to "every launch is accepted".
+
+  `c.sizeCheck = true` is the code after repair 0c66556 (`gen_exit_checks_size` pins it to the source);
+  `eq_prefix_counterexample` shows that without that branch `join()` returns early.
 -/
-import Babylon.ExecQ.Model
+import Babylon.ExecQ.LemmasInv
+import Babylon.ExecQ.Sched
 
 namespace Babylon.Properties.C16
 open Babylon.ExecQ Babylon.Gen.ExecQ Babylon.Core
+
+/-! ## Generated obligations: the source is the code the model was written against -/
 
 theorem gen_skel_execute : skel_execute_move = Skel.execute ∧ skel_execute_copy = Skel.execute := by decide
 theorem gen_skel_signal_push_event : skel_signal_push_event = Skel.signal_push_event := by decide
 theorem gen_skel_start_consumer : skel_start_consumer = Skel.start_consumer := by decide
 theorem gen_skel_consume_until_empty : skel_consume_until_empty = Skel.consume_until_empty := by decide
 theorem gen_skel_join : skel_join = Skel.join := by decide
+/-- memory orders of the `_events` protocol (the labels of the model use the generated names, so every
+replayed trace line also checks them) -/
+theorem gen_orders :
+    ordSignal = .acqrel ∧ ordRollbackS = .acqrel ∧ ordRollbackF = .acq ∧ ordConsLoad = .acq ∧
+    ordConsReload = .acq ∧ ordExitS = .acqrel ∧ ordExitF = .acq ∧ ordJoin = .acq := by decide
+/-- increment 1, roll-back expects 1 first and resets to 0, the consumer resets to 0; the push is the
+concurrent spinning variant, the pop the non-concurrent batch variant -/
+theorem gen_constants :
+    signalInc = 1 ∧ rollbackExpectInit = 1 ∧ rollbackDesired = 0 ∧ exitDesired = 0 ∧
+    pushConcurrent = true ∧ pushFutexWait = false ∧ pushFutexWake = false ∧
+    popConcurrent = false ∧ popFutexWake = false := by decide
+/-- the consumer re-polls instead of leaving while an index is handed out but not popped (repair
+0c66556); the theorems below that assume `c.sizeCheck = true` are about this code -/
+theorem gen_exit_checks_size : exitChecksSize = true := by decide
+
+/-! ## eq_single_consumer -/
+
+/-- **At most one consumer; `_events` accounting.**  In every reachable state, under every executor
+behaviour: at most one thread owns the current `_events ≠ 0` episode (it is the producer between its
+`fetch_add` that returned 0 and the outcome of the launch / its roll-back, or the running consumer);
+while such a thread exists no accepted launch is pending, and at most one accepted launch is ever
+pending; and `_events > 0` exactly when an owner exists or an accepted launch is pending. -/
+theorem eq_single_consumer (c : Cfg) (s : State) (hr : Reach c s) :
+    (∀ t u, (s.pc t).owner = true → (s.pc u).owner = true → t = u) ∧
+    (∀ t, (s.pc t).owner = true → s.launched = 0) ∧ s.launched ≤ 1 ∧
+    (0 < s.events ↔ (∃ t, (s.pc t).owner = true) ∨ s.launched = 1) := by
+  have ho := (reach_invB hr).o
+  refine ⟨ho.uniq, ho.nol, ho.l1, ?_, ?_⟩
+  · intro hpos
+    by_cases h : ∃ t, (s.pc t).owner = true
+    · exact .inl h
+    · right
+      have hno : ∀ t, (s.pc t).owner = false := by
+        intro t; cases ho' : (s.pc t).owner
+        · rfl
+        · exact absurd ⟨t, ho'⟩ h
+      have hl1 := ho.l1
+      by_cases hl : s.launched = 0
+      · have := ho.zero hno hl; omega
+      · omega
+  · rintro (⟨t, ht⟩ | hl)
+    · exact ho.pos t ht
+    · exact ho.posl (by omega)
+
+/-- the consume function is never running in two places at once, and `consume_until_empty` is never
+running on two threads -/
+theorem eq_consume_exclusive (c : Cfg) (s : State) (hr : Reach c s) :
+    (∀ t u, (s.pc t).consumer = true → (s.pc u).consumer = true → t = u) ∧
+    (∀ t u, (s.pc t).inCb = true → (s.pc u).inCb = true → t = u) := by
+  have ho := (reach_invB hr).o
+  have hcb : ∀ p : Pc, p.inCb = true → p.owner = true := by
+    intro p h; cases p <;> simp [Pc.inCb] at h <;> rfl
+  exact ⟨fun t u ht hu => ho.uniq t u (Pc.owner_of_consumer ht) (Pc.owner_of_consumer hu),
+    fun t u ht hu => ho.uniq t u (hcb _ ht) (hcb _ hu)⟩
+
+/-! ## eq_each_once_in_order -/
+
+/-- all items for which an index was taken so far, in index order -/
+def allItems (s : State) : List Item := (List.range s.tail).filterMap s.tick
+
+theorem pairwise_items {s : State} (hi : InvI s) (n : Nat) :
+    ((List.range n).filterMap s.tick).Pairwise (fun a b => a.owner = b.owner → a.seq < b.seq) := by
+  induction n with
+  | zero => simp
+  | succ n ih =>
+    rw [List.range_succ, List.filterMap_append, List.pairwise_append]
+    refine ⟨ih, ?_, ?_⟩
+    · cases h : s.tick n <;> simp [h]
+    · intro a ha b hb hab
+      rw [List.mem_filterMap] at ha hb
+      obtain ⟨i, hi', hia⟩ := ha
+      obtain ⟨j, hj, hjb⟩ := hb
+      rw [List.mem_range] at hi'
+      simp only [List.mem_singleton] at hj
+      subst hj
+      exact (hi.ord i j a b hia hjb hab).1 hi'
+
+/-- **Exactly once, in order.**  What the consume function has been handed so far is exactly the items
+of the indices `0 … ncons-1` in index order — a prefix of the items of all indices taken — and in that
+order the items of one producer appear in the order it submitted them (increasing `seq`), so no item
+appears twice and none is invented; moreover an item is never delivered before an earlier item of the
+same producer. -/
+theorem eq_each_once_in_order (c : Cfg) (s : State) (hr : Reach c s) :
+    s.consumed = (List.range s.ncons).filterMap s.tick ∧ s.ncons ≤ s.head ∧ s.head ≤ s.tail ∧
+    s.consumed <+: allItems s ∧
+    (allItems s).Pairwise (fun a b => a.owner = b.owner → a.seq < b.seq) ∧
+    s.consumed.Nodup ∧
+    (∀ a b, b ∈ s.consumed → a ∈ allItems s → a.owner = b.owner → a.seq < b.seq → a ∈ s.consumed) := by
+  obtain ⟨ho, hq, hn, hi⟩ := reach_invB hr
+  -- consumed ++ rest = popped = items of the indices below head
+  obtain ⟨rest, hrest, hlen⟩ : ∃ rest, s.popped = s.consumed ++ rest ∧ s.ncons + rest.length = s.head := by
+    by_cases h : ∃ t, (s.pc t).consumer = true
+    · obtain ⟨t, ht⟩ := h
+      exact ⟨_, hi.ccb t ht, hn.ncb t ht⟩
+    · have hno : ∀ t, (s.pc t).consumer = false := by
+        intro t; cases h' : (s.pc t).consumer
+        · rfl
+        · exact absurd ⟨t, h'⟩ h
+      exact ⟨[], by rw [List.append_nil]; exact hi.cno hno, by simpa using hn.nno hno⟩
+  have hnh : s.ncons ≤ s.head := by omega
+  have hsome : ∀ (a b : Nat), a + b ≤ s.tail → (((List.range b).map (a + ·)).filterMap s.tick).length = b := by
+    intro a b hab
+    rw [length_filterMap_all_some, List.length_map, List.length_range]
+    intro x hx
+    rw [List.mem_map] at hx
+    obtain ⟨y, hy, rfl⟩ := hx
+    rw [List.mem_range] at hy
+    exact hq.tick_some _ (by omega)
+  have hsplit : ∀ (a b : Nat), (List.range (a + b)).filterMap s.tick =
+      (List.range a).filterMap s.tick ++ ((List.range b).map (a + ·)).filterMap s.tick := by
+    intro a b; rw [List.range_add, List.filterMap_append]
+  have hcons : s.consumed = (List.range s.ncons).filterMap s.tick := by
+    have h1 : s.consumed ++ rest = (List.range s.ncons).filterMap s.tick ++
+        ((List.range (s.head - s.ncons)).map (s.ncons + ·)).filterMap s.tick := by
+      rw [← hrest, hi.popped, ← hsplit, show s.ncons + (s.head - s.ncons) = s.head by omega]
+    have h2 : s.consumed.length = ((List.range s.ncons).filterMap s.tick).length := by
+      have := hsome 0 s.ncons (by have := hq.ht; omega)
+      simp only [Nat.zero_add, List.map_id'] at this
+      rw [← hi.len, this]
+    exact (List.append_inj h1 h2).1
+  have hpre : s.consumed <+: allItems s := by
+    refine ⟨((List.range (s.tail - s.ncons)).map (s.ncons + ·)).filterMap s.tick, ?_⟩
+    have := hq.ht
+    rw [hcons, allItems, ← hsplit, show s.ncons + (s.tail - s.ncons) = s.tail by omega]
+  have hpw := pairwise_items hi s.tail
+  have hnd : (allItems s).Nodup := by
+    refine hpw.imp ?_
+    intro a b hab heq
+    subst heq
+    exact Nat.lt_irrefl _ (hab rfl)
+  refine ⟨hcons, hnh, hq.ht, hpre, hpw, hnd.sublist hpre.sublist, ?_⟩
+  intro a b hb ha hab hlt
+  obtain ⟨tl, htl⟩ := hpre
+  rw [← htl, List.mem_append] at ha
+  rcases ha with ha | ha
+  · exact ha
+  · exfalso
+    rw [allItems] at htl
+    have hpw' := hpw
+    rw [← htl, List.pairwise_append] at hpw'
+    have := hpw'.2.2 b hb a ha hab.symm
+    omega
+
+/-! ## eq_none_stranded -/
+
+/-- general form: no refused launch outstanding (`debt = false`, see `eq_refused_recovers`) -/
+theorem eq_none_stranded_debt (c : Cfg) (hc : c.sizeCheck = true) (s : State) (hr : Reach c s)
+    (hd : s.debt = false) (i : Nat) (h1 : s.head ≤ i) (h2 : i < s.tail) :
+    (∃ t, (s.pc t).owner = true) ∨ s.launched = 1 ∨
+    (s.sig i = false ∧ (s.pc (s.holder i)).inFlight = true) := by
+  obtain ⟨ho, hq, hn, hi⟩ := reach_invB hr
+  have hcv := reach_invC hc hr
+  by_cases hev : s.events = 0
+  · right; right
+    have hs := hcv.cov hd hev i h1
+    refine ⟨hs, ?_⟩
+    rcases hq.conv i h2 hs with ⟨it, h⟩ | h <;> rw [h] <;> rfl
+  · rcases ((eq_single_consumer c s hr).2.2.2.1 (by omega)) with h | h
+    · exact .inl h
+    · exact .inr (.inl h)
+
+/-- **None stranded.**  If every launch is accepted then in every reachable state every index that is
+still in the queue (taken but not popped — in particular every published, unconsumed item) is covered:
+a consumer is running or a producer is about to launch one (`owner`), or an accepted launch is pending,
+or the producer of that very index is still inside its `execute`, before its `_events.fetch_add` — which
+will return 0 and make it launch, because `_events = 0` in that case. -/
+theorem eq_none_stranded (c : Cfg) (hc : c.sizeCheck = true) (s : State) (hr : ReachA c s)
+    (i : Nat) (h1 : s.head ≤ i) (h2 : i < s.tail) :
+    (∃ t, (s.pc t).owner = true) ∨ s.launched = 1 ∨
+    (s.sig i = false ∧ (s.pc (s.holder i)).inFlight = true ∧ s.events = 0) := by
+  have hd : s.debt = false := by
+    cases h : s.debt
+    · rfl
+    · have := (reach_invC hc (ReachA.reach hr)).debtRef h
+      rw [reachA_refusals hr] at this; omega
+  rcases eq_none_stranded_debt c hc s (ReachA.reach hr) hd i h1 h2 with h | h | ⟨h3, h4⟩
+  · exact .inl h
+  · exact .inr (.inl h)
+  · by_cases hev : s.events = 0
+    · exact .inr (.inr ⟨h3, h4, hev⟩)
+    · rcases ((eq_single_consumer c s (ReachA.reach hr)).2.2.2.1 (by omega)) with h | h
+      · exact .inl h
+      · exact .inr (.inl h)
+
+/-- at quiescence (all threads idle, nothing launched, no refusal outstanding) everything submitted has
+been handed to the consume function -/
+theorem eq_quiescent_all_consumed (c : Cfg) (hc : c.sizeCheck = true) (s : State) (hr : Reach c s)
+    (hd : s.debt = false) (hidle : ∀ t, s.pc t = .idle) (hl : s.launched = 0) :
+    s.consumed = allItems s ∧ s.ncons = s.tail := by
+  obtain ⟨ho, hq, hn, hi⟩ := reach_invB hr
+  have hht : s.head = s.tail := by
+    by_cases h : s.head < s.tail
+    · rcases eq_none_stranded_debt c hc s hr hd s.head (Nat.le_refl _) h with ⟨t, ht⟩ | h' | ⟨_, h'⟩
+      · rw [hidle] at ht; cases ht
+      · omega
+      · rw [hidle] at h'; cases h'
+    · have := hq.ht; omega
+  have hnc : s.ncons = s.head := hn.nno (fun t => by rw [hidle]; rfl)
+  refine ⟨?_, by omega⟩
+  rw [(eq_each_once_in_order c s hr).1, allItems, hnc, hht]
+
+/-! ## eq_join_sound -/
+
+/-- **Join is sound.**  When `join()`'s load observes `_events = 0` and no refused launch is outstanding,
+every index whose `execute` had returned when the join was called (the ghost snapshot `snap`) has been
+handed to the consume function, and the consume function has returned from it (no thread is inside
+it). -/
+theorem eq_join_sound (c : Cfg) (hc : c.sizeCheck = true) (s : State) (hr : Reach c s) (t : Nat) (snap : List Nat)
+    (hpc : s.pc t = .j0 snap) (he : s.events = 0) (hd : s.debt = false) :
+    (∀ tk, tk ∈ snap → tk < s.ncons) ∧ (∀ u, (s.pc u).consumer = false) := by
+  obtain ⟨ho, hq, hn, hi⟩ := reach_invB hr
+  have hcv := reach_invC hc hr
+  have hnc : ∀ u, (s.pc u).consumer = false := by
+    intro u; cases h : (s.pc u).consumer
+    · rfl
+    · have := ho.pos u (Pc.owner_of_consumer h); omega
+  refine ⟨?_, hnc⟩
+  intro tk htk
+  have hs := hn.snap t snap hpc tk htk
+  have hlt : tk < s.head := by
+    by_cases h : tk < s.head
+    · exact h
+    · have := hcv.cov hd he tk (by omega); rw [hs] at this; cases this
+  rw [hn.nno hnc]; exact hlt
+
+/-- … hence, when every launch is accepted, no `join()` ever returns while something submitted before
+it is unconsumed (`joinBad` is raised by a returning join exactly in that case). -/
+theorem eq_join_sound_accepting (c : Cfg) (hc : c.sizeCheck = true) (s : State) (hr : ReachA c s) :
+    s.joinBad = false := by
+  induction hr with
+  | base hi => subst hi; rfl
+  | tail hr' hst ih =>
+    rename_i s1 s2
+    have hd : s1.debt = false := by
+      cases h : s1.debt
+      · rfl
+      · have := (reach_invC hc (ReachA.reach hr')).debtRef h
+        rw [reachA_refusals hr'] at this; omega
+    cases hst with
+    | act t inp s' l h hne =>
+      have hs := stepThread_tstep h
+      cases hs with
+      | joinRet snap hpc he =>
+        have := (eq_join_sound c hc s1 (ReachA.reach hr') t snap hpc he hd).1
+        show (s1.joinBad || snap.any fun tk => decide (s1.ncons ≤ tk)) = false
+        rw [ih, Bool.false_or, List.any_eq_false]
+        intro tk htk
+        have := this tk htk
+        simp only [decide_eq_true_eq]; omega
+      | joinSpin snap hpc he => exact ih
+      | _ => exact ih
+    | execute t v h => exact ih
+    | signal t h => exact ih
+    | join t h => exact ih
+    | start t h hl => exact ih
+
+/-! ## eq_refused_recovers -/
+
+/-- **After refused launches `_events` is 0 again**: the roll-back CAS that ends a refused
+`start_consumer` leaves `_events = 0`, returns −1 (code 1), and leaves no owner and no pending launch —
+the state every later `signal_push_event` starts a launch from (`eq_next_signal_launches`). -/
+theorem eq_refused_rollback (c : Cfg) (s s' : State) (hr : Reach c s) (t ev : Nat) (otk : Option Nat) (inp : Inp) (l : Label)
+    (hpc : s.pc t = .pRollback ev otk) (he : s.events = ev) (hst : stepThread c s t inp = some (s', l)) :
+    s'.events = 0 ∧ s'.result t = 1 ∧ s'.pc t = .idle ∧ (∀ u, (s'.pc u).owner = false) ∧ s'.launched = 0 := by
+  have hr' : Reach c s' := .tail hr (.act s t inp s' l hst)
+  have ho' := (reach_invB hr').o
+  have h := stepThread_tstep hst
+  cases h <;> simp_all
+  refine ⟨?_, ?_⟩
+  · intro u
+    cases hu : (upd s.pc t Pc.idle u).owner
+    · rfl
+    · have := ho'.pos u hu; simp at this
+  · cases hl : s.launched with
+    | zero => rfl
+    | succ n => have := ho'.posl (by show 0 < s.launched; omega); simp at this
+
+/-- with `_events = 0` the next `signal_push_event` (bare, or at the end of an `execute`) performs a
+launch attempt -/
+theorem eq_next_signal_launches (c : Cfg) (s s' : State) (t : Nat) (otk : Option Nat) (inp : Inp) (l : Label)
+    (hpc : s.pc t = .pSignal otk) (he : s.events = 0) (hst : stepThread c s t inp = some (s', l)) :
+    s'.pc t = .pLaunch 1 otk ∧ s'.events = 1 := by
+  have h := stepThread_tstep hst
+  cases h <;> simp_all
+
+/-- **Refused launches recover.**  For every history of accepted and refused launches: when a consumer
+leaves (its exit CAS succeeds), every index whose producer has signalled — in particular everything
+that was pending when launches were refused — has been handed to the consume function; `_events` is 0,
+the refusal debt is cleared, and what remains in the queue belongs to producers that are still inside
+`execute` before their `fetch_add` (which will therefore launch the next consumer). -/
+theorem eq_refused_recovers (c : Cfg) (hc : c.sizeCheck = true) (s s' : State) (hr : Reach c s) (t ev : Nat) (k : Kont)
+    (inp : Inp) (l : Label) (hpc : s.pc t = .cExit k ev) (he : s.events = ev)
+    (hst : stepThread c s t inp = some (s', l)) :
+    s'.events = 0 ∧ s'.debt = false ∧ (∀ i, s'.sig i = true → i < s'.ncons) ∧
+    (∀ i, s'.head ≤ i → i < s'.tail → s'.sig i = false ∧ (s'.pc (s'.holder i)).inFlight = true) := by
+  have hr' : Reach c s' := .tail hr (.act s t inp s' l hst)
+  obtain ⟨ho', hq', hn', hi'⟩ := reach_invB hr'
+  have hcv' := reach_invC hc hr'
+  have h := stepThread_tstep hst
+  have hev : s'.events = 0 ∧ s'.debt = false := by cases h <;> simp_all
+  have hnc : ∀ u, (s'.pc u).consumer = false := by
+    intro u; cases hu : (s'.pc u).consumer
+    · rfl
+    · have := ho'.pos u (Pc.owner_of_consumer hu); omega
+  have hcov := hcv'.cov hev.2 hev.1
+  refine ⟨hev.1, hev.2, ?_, ?_⟩
+  · intro i hs
+    rw [hn'.nno hnc]
+    by_cases hlt : i < s'.head
+    · exact hlt
+    · have := hcov i (by omega); rw [hs] at this; cases this
+  · intro i h1 h2
+    have hs := hcov i h1
+    refine ⟨hs, ?_⟩
+    rcases hq'.conv i h2 hs with ⟨it, h⟩ | h <;> rw [h] <;> rfl
+
+/-! ## The branch of repair 0c66556 is necessary -/
+
+/-- the witness found on the real code before the repair (`c16 inline 36`), reduced: thread 3 takes
+index 0 and stalls before publishing; thread 1 pushes at index 1, signals, becomes the inline consumer,
+polls empty (index 0 is unpublished), resets `_events` and returns; its `join()` then returns although
+its own item is not consumed. -/
+def prefixWitness : List Move :=
+  [.execute 3 300, .act 3 .none,
+   .execute 1 100, .act 1 .none, .act 1 .none, .act 1 .none, .act 1 (.launch .inl),
+   .act 1 .none, .act 1 (.pop 0), .act 1 .none,
+   .join 1, .act 1 .none]
+
+/-- **Without the size check `join()` returns early** even though every launch is accepted: on the
+shape of `consume_until_empty` before repair 0c66556 (`sizeCheck := false`) a state is reachable in which
+a `join()` has returned while an item whose `execute` had returned before that join is unconsumed — and
+at that moment the published item at index 1 has no consumer, no pending launch and no launching
+producer. -/
+theorem eq_prefix_counterexample :
+    ∃ s, ReachA { cap := 4, sizeCheck := false } s ∧ s.joinBad = true ∧ s.refusals = 0 ∧
+      s.pub 1 = true ∧ s.sig 1 = true ∧ s.head = 0 ∧ s.events = 0 ∧ s.launched = 0 ∧ s.ncons = 0 := by
+  have hrun : (run { cap := 4, sizeCheck := false } State.init prefixWitness).map
+      (fun s => decide (s.joinBad = true ∧ s.refusals = 0 ∧ s.pub 1 = true ∧ s.sig 1 = true ∧ s.head = 0 ∧
+        s.events = 0 ∧ s.launched = 0 ∧ s.ncons = 0)) = some true := by decide
+  cases hs : run { cap := 4, sizeCheck := false } State.init prefixWitness with
+  | none => rw [hs] at hrun; simp at hrun
+  | some s =>
+    rw [hs] at hrun
+    exact ⟨s, runA_reachable prefixWitness _ _ (by decide) (Reachable.base rfl) hs, by simpa using hrun⟩
+
+/-- on the repaired code the same schedule cannot leave: after the empty poll the consumer sees
+`_next_push_index ≠ head` and polls again -/
+example : (run { cap := 4 } State.init (prefixWitness.take 9 ++ [.act 1 .none])).map (fun s => s.pc 1) =
+    some (.cPop (.inl (some 1)) 1 false) := by decide
+
+/-! ## Non-vacuity -/
+
+/-- three threads, capacity 4: thread 1's launch is refused twice (roll-back CAS fails once because
+thread 2 signalled meanwhile, then succeeds), thread 2's next execute launches an asynchronous consumer
+that starts on thread 5, delivers all three items in two batches and leaves; thread 1 joins. -/
+def demoSched : List Move :=
+  [.execute 1 100, .act 1 .none, .act 1 .none, .act 1 .none,           -- index 0, published, events 0 → 1
+   .act 1 (.launch .refuse),                                             -- first refusal
+   .execute 2 200, .act 2 .none, .act 2 .none, .act 2 .none,           -- index 1, events 1 → 2, returns 0
+   .act 1 .none,                                                         -- roll-back CAS(1 → 0) fails, expected := 2
+   .act 1 (.launch .refuse), .act 1 .none,                               -- second refusal, CAS(2 → 0) succeeds: events = 0, −1
+   .join 1, .act 1 .none,                                                -- join returns at once (launches were refused)
+   .execute 2 201, .act 2 .none, .act 2 .none, .act 2 .none,           -- index 2, events 0 → 1: next signal launches
+   .act 2 (.launch .async), .start 5,
+   .act 5 .none, .act 5 (.pop 2), .act 5 .none, .act 5 .none, .act 5 .none, .act 5 .none,
+   .act 5 (.pop 1), .act 5 .none, .act 5 .none, .act 5 .none,
+   .act 5 .reload, .act 5 (.pop 0), .act 5 .none, .act 5 .none,         -- empty poll, size = 0, exit CAS
+   .join 1, .act 1 .none]
+
+example : ∃ s, Reach { cap := 4 } s ∧ s.refusals = 2 ∧ s.debt = false ∧ s.events = 0 ∧
+    s.consumed.map (·.val) = [100, 200, 201] ∧ s.ncons = 3 ∧ s.tail = 3 ∧ s.result 1 = 1 ∧
+    s.returned = [2, 0, 1] ∧ (∀ t, t < 8 → s.pc t = .idle) := by
+  have hrun : (run { cap := 4 } State.init demoSched).map
+      (fun s => decide (s.refusals = 2 ∧ s.debt = false ∧ s.events = 0 ∧ s.consumed.map (·.val) = [100, 200, 201] ∧
+        s.ncons = 3 ∧ s.tail = 3 ∧ s.result 1 = 1 ∧ s.returned = [2, 0, 1]) &&
+        (List.range 8).all (fun t => s.pc t = .idle)) = some true := by decide
+  cases hs : run { cap := 4 } State.init demoSched with
+  | none => rw [hs] at hrun; simp at hrun
+  | some s =>
+    rw [hs] at hrun
+    simp only [Option.map_some, Option.some.injEq, Bool.and_eq_true, decide_eq_true_eq] at hrun
+    obtain ⟨⟨h1, h2, h3, h4, h5, h6, h7, h8⟩, h9⟩ := hrun
+    refine ⟨s, run_reachable demoSched _ _ (Reachable.base rfl) hs, h1, h2, h3, h4, h5, h6, h7, h8, ?_⟩
+    intro t ht
+    have := List.all_eq_true.mp h9 t (List.mem_range.mpr ht)
+    simpa using this
+
+/-- the hypotheses of `eq_join_sound` are satisfiable with a non-empty snapshot: the state just before
+the last step of `demoSched` -/
+example : ∃ s, Reach { cap := 4 } s ∧ s.pc 1 = .j0 [2, 0, 1] ∧ s.events = 0 ∧ s.debt = false := by
+  have hrun : (run { cap := 4 } State.init (demoSched.take 35)).map (fun s => (s.pc 1, s.events, s.debt)) =
+      some (.j0 [2, 0, 1], 0, false) := by decide
+  cases hs : run { cap := 4 } State.init (demoSched.take 35) with
+  | none => rw [hs] at hrun; simp at hrun
+  | some s =>
+    rw [hs] at hrun
+    simp only [Option.map_some, Option.some.injEq, Prod.mk.injEq] at hrun
+    exact ⟨s, run_reachable _ _ _ (Reachable.base rfl) hs, hrun.1, hrun.2.1, hrun.2.2⟩
 
 end Babylon.Properties.C16
